@@ -516,7 +516,9 @@ def compare_dict(acc, fmt, rec, expected, obs, model, dom, expected2=None):
     elif not same(obs, model):
         if isinstance(obs, Ok) and isinstance(model, Ok) and sorted(obs.v) == sorted(model.v):
             pass
-        elif expected2 is not None:
+        elif expected2 is not None and isinstance(expected2, Ok) and isinstance(obs, Ok) and sorted(obs.v) == sorted(expected2.v) \
+                and show(expected2) != show(expected):
+            # the implementation took the OTHER admissible begin+dur reading (only possible when the two readings differ)
             d["begin_dur_other_reading_than_model"] = d.get("begin_dur_other_reading_than_model", 0) + 1
         else:
             res["disagreements"].append({"format": fmt, "input": rec, "impl": show(obs), "model": show(model)})
@@ -574,6 +576,7 @@ def stream_dfxp_text(ctx, acc, n):
         rec = {"input": None, "document": doc, "opts": None}
         for key, val in (("dfxp_text_character_references", g.refs), ("dfxp_text_single_quoted_attributes", g.single),
                          ("dfxp_text_close_before_begin", g.swapped), ("dfxp_text_paragraphs", g.ps),
+                         ("dfxp_text_generic_elements_of_arbitrary_name", getattr(g, "generic", 0)),
                          ("dfxp_text_blank_paragraphs_written_with_references_only", g.blank_ref_only)):
             dd[key] = dd.get(key, 0) + val
         if isinstance(model, Err) and model.code == 99:
@@ -628,6 +631,10 @@ def stream_dfxp_corpus(ctx, acc):
                     docs.append(("fixture", d))
     except Exception:
         acc.res["distribution"]["dfxp_fixture_module_not_importable"] = 1
+    # audit 7 witnesses: a <p> below <template> / <rt> / <rp> (outside xdoc_ok: bs4 hides the strings from get_text(), the
+    # real reader finds no caption, the string-level model does) - kept as fixed corpus cases, counted as outside the model
+    for nm in ("template", "rt", "rp"):
+        docs.append(("fixture", '<tt xml:lang="en"><body><div><%s><p begin="1s" end="2s">x</p></%s></div></body></tt>' % (nm, nm)))
     rng = ctx.rng
     for _ in range(ctx.n(40, 600)):
         langs = {}
@@ -1029,7 +1036,7 @@ def run(ctx):
                     "double / single / no quotes, white space, references, &nbsp;, <br>) the body text tokenises to its "
                     "tags and runs (C01_sami_text_tokens) and the string-level reader returns exactly the denoted captions "
                     "of every language (C01_sami_string_exact)"],
-        "definitional_or_spec_internal": ["C01_vtt_shift (identity between two spec functions)",
+        "definitional_or_spec_internal": ["C01_vtt_shift_unfold (identity between two spec functions)",
                                           "C01_dfxp_blank_paragraph_ignored, C01_dfxp_missing_times_refused (unfold the "
                                           "model)", "C01_dfxp_long_fraction_refuted (history: the pre-fix variant)",
                                           "C01_dfxp_div_exact, C01_vtt_validation_transparent (liftings / corollaries)"],
